@@ -70,29 +70,14 @@ example : HasFields [[FRes.val (Val.num 1 0), .val (.bool true)], [.val (.num 1 
 
 /-! ### unique -/
 
-/-- the region in which the pinned `unique` counter agrees with the XSD rule: no selected node has
-    some but not all of its fields -/
-def NoPartial (rows : List (List (FRes Val))) : Prop :=
-  ∀ r ∈ rows, (complete? r).isSome ∨ (∀ x ∈ r, x = FRes.absent) ∨ FRes.multi ∈ r
-
-theorem allAbsent_complete_none {r : List (FRes Val)} (h : ∀ x ∈ r, x = FRes.absent) (hr : r ≠ []) :
-    complete? r = none := by
-  cases r with
-  | nil => exact absurd rfl hr
-  | cons a r =>
-    have := h a (List.mem_cons_self ..)
-    subst this
-    rfl
-
 theorem unique_gen (rows : List (List (FRes Val))) (table : List Tuple) (hn : table.Nodup)
-    (hr : HasFields rows) (hp : NoPartial rows) :
+    (hr : HasFields rows) :
     (offerAll .unique rows table).2 = [] ↔
       NoMulti rows ∧ (Q rows).Nodup ∧ ∀ t ∈ Q rows, wrap t ∉ table := by
   induction rows generalizing table with
   | nil => simp [offerAll, NoMulti]
   | cons r rs ih =>
     have hr' : HasFields rs := fun x hx => hr x (List.mem_cons_of_mem _ hx)
-    have hp' : NoPartial rs := fun x hx => hp x (List.mem_cons_of_mem _ hx)
     have hrr : r ≠ [] := hr r (List.mem_cons_self ..)
     rw [offerAll_cons]
     by_cases hm : FRes.multi ∈ r
@@ -110,37 +95,41 @@ theorem unique_gen (rows : List (List (FRes Val))) (table : List Tuple) (hn : ta
         · have hcnt : ¬ table.count (wrap t) = 1 := fun h => hmem ((count_one_iff hn).mp h)
           have hn' : (wrap t :: table).Nodup := List.nodup_cons.mpr ⟨hmem, hn⟩
           simp only [hcnt, if_false, Option.toList, List.nil_append]
-          rw [ih _ hn' hr' hp']
+          rw [ih _ hn' hr']
           simp only [List.mem_cons, hc, List.filterMap_cons, List.nodup_cons, wrap_inj, not_or]
           grind
       | none =>
-        have hall : ∀ x ∈ r, x = FRes.absent := by
-          rcases hp r (List.mem_cons_self ..) with h | h | h
-          · simp [hc] at h
-          · exact h
-          · exact absurd h hm
-        rw [offer_unique_allAbsent table hall]
+        -- a node lacking a field — all of them or (cc593f3) only some — is outside the qualified
+        -- node set: the counter ignores it
+        rw [offer_unique_incomplete table hm hc]
         simp only [Option.toList, List.nil_append, List.filterMap_cons, hc]
-        exact ih table hn hr' hp'
+        exact ih table hn hr'
 
-/- Full statement (XSD §3.11.4, cvc-identity-constraint 4.1):
-     `(offerAll .unique rows []).2 = [] ↔ UniqueOk rows`   for every `rows`.
-   It is FALSE for the pinned algorithm: a selected node with some but not all fields is keyed and
-   compared although it is not in the qualified node set (`unique_counterexample`).  Proved: the
-   statement on the region `NoPartial`. -/
-theorem unique_scope_iff_partial (rows : List (List (FRes Val))) (hr : HasFields rows)
-    (hp : NoPartial rows) : (offerAll .unique rows []).2 = [] ↔ UniqueOk rows := by
-  rw [unique_gen rows [] List.nodup_nil hr hp]
+/-- **unique** (XSD §3.11.4, cvc-identity-constraint 4.1), full statement: a scope's unique counter,
+    started empty, raises no error exactly when no field selects several nodes and no two selected
+    nodes *having all their fields* have equal tuples — whatever the nodes that lack some or all of
+    their fields look like.  (Before the `fix:` commit cc593f3 this held only on the region without
+    partially absent tuples.) -/
+theorem unique_scope_iff (rows : List (List (FRes Val))) (hr : HasFields rows) :
+    (offerAll .unique rows []).2 = [] ↔ UniqueOk rows := by
+  rw [unique_gen rows [] List.nodup_nil hr]
   simp [UniqueOk, Distinct]
 
-example : HasFields [[FRes.val (Val.num 1 0), .val (.bool true)], [.absent, .absent]] ∧
-    NoPartial [[FRes.val (Val.num 1 0), .val (.bool true)], [.absent, .absent]] := by
-  constructor <;> intro r hr <;> simp at hr <;> rcases hr with rfl | rfl <;> simp [complete?]
+example : HasFields [[FRes.val (Val.num 1 0), .val (.bool true)], [.val (.num 1 0), .absent],
+    [.absent, .absent]] := by
+  intro r hr; simp at hr; rcases hr with rfl | rfl | rfl <;> simp
 
-/-- witness (replayed on the real code by the harness, finding C08-F6): two nodes `(1, ⊥)` -/
+/-- the witness of the former finding C08-F6 (replayed on the real code by the harness): two nodes
+    `(1, ⊥)`; and the same partial node between two equal complete ones -/
 def uniqueWitness : List (List (FRes Val)) := [[.val (.num 1 0), .absent], [.val (.num 1 0), .absent]]
-theorem unique_counterexample :
-    UniqueOk uniqueWitness ∧ (offerAll .unique uniqueWitness []).2 = [.dup] := by
+def uniqueWitness2 : List (List (FRes Val)) :=
+  [[.val (.num 1 0), .val (.num 2 0)], [.val (.num 1 0), .absent], [.val (.num 1 0), .val (.num 2 0)]]
+
+/-- regression witnesses for cc593f3: partially absent tuples are neither compared with each other
+    nor do they hide a duplicate among the complete ones -/
+theorem unique_partial_witness :
+    (UniqueOk uniqueWitness ∧ (offerAll .unique uniqueWitness []).2 = []) ∧
+    (¬ UniqueOk uniqueWitness2 ∧ (offerAll .unique uniqueWitness2 []).2 = [.dup]) := by
   decide
 
 /-! ### keyref -/
@@ -252,8 +241,7 @@ theorem collect_block (env : Env) (c s : Nat) (ns : List Nat) (st : St) (tb : Li
     (hc : st.ctrs c = some ⟨s, true, tb⟩) :
     let fin := ns.foldl (fun st n => collectOne env n st c) st
     fin.ctrs c = some ⟨s, true, (offerAll (env.kind c) (scopeRows env c s ns) tb).1⟩ ∧
-    (fin.errs = [] ↔ st.errs = [] ∧ (offerAll (env.kind c) (scopeRows env c s ns) tb).2 = []) ∧
-    fin.crash = st.crash := by
+    (fin.errs = [] ↔ st.errs = [] ∧ (offerAll (env.kind c) (scopeRows env c s ns) tb).2 = []) := by
   induction ns generalizing st tb with
   | nil => simp [scopeRows, offerAll, hc]
   | cons n ns ih =>
@@ -265,17 +253,17 @@ theorem collect_block (env : Env) (c s : Nat) (ns : List Nat) (st : St) (tb : Li
       generalize ho : offer (env.kind c) tb (env.fields c n) = o
       obtain ⟨tb', e⟩ := o
       have hst : ∃ st', collectOne env n st c = st' ∧ st'.ctrs c = some ⟨s, true, tb'⟩ ∧
-          (st'.errs = [] ↔ st.errs = [] ∧ e = none) ∧ st'.crash = st.crash := by
+          (st'.errs = [] ↔ st.errs = [] ∧ e = none) := by
         refine ⟨_, rfl, ?_⟩
         simp only [collectOne, hc, hs, ho, Bool.not_true, Bool.or_false, Bool.false_eq_true,
           if_false]
         cases e with
         | none => simp [St.put]
         | some e => cases e <;> simp [St.put, St.err]
-      obtain ⟨st', hst', h1, h2, h3⟩ := hst
+      obtain ⟨st', hst', h1, h2⟩ := hst
       rw [hst']
-      obtain ⟨i1, i2, i3⟩ := ih st' tb' h1
-      refine ⟨i1, ?_, i3.trans h3⟩
+      obtain ⟨i1, i2⟩ := ih st' tb' h1
+      refine ⟨i1, ?_⟩
       rw [i2, h2]
       cases e <;> simp
     · have hrows : scopeRows env c s (n :: ns) = scopeRows env c s ns := by
@@ -290,8 +278,52 @@ def runFrom (env : Env) (st : St) (evs : List Ev) : St := evs.foldl (step env) s
 
 theorem run_eq_runFrom (env : Env) (evs : List Ev) : run env evs = runFrom env St.init evs := rfl
 
-theorem collectOne_crash (env : Env) (n c : Nat) (st : St) :
-    (collectOne env n st c).crash = st.crash := by
+theorem collects_fold (env : Env) (c : Nat) (ns : List Nat) (st : St) :
+    (ns.map fun n => Ev.collect n [c]).foldl (step env) st =
+      ns.foldl (fun st n => collectOne env n st c) st := by
+  induction ns generalizing st with
+  | nil => rfl
+  | cons n ns ih =>
+    simp only [List.map_cons, List.foldl_cons]
+    have : step env st (.collect n [c]) = collectOne env n st c := by
+      simp [step]
+    rw [this]
+    exact ih _
+
+/-- the state right after `enter s [c]` -/
+theorem enter_state (env : Env) (c s : Nat) (st : St) (he : st.errs = []) :
+    (step env st (.enter s [c])).ctrs c = some ⟨s, true, []⟩ ∧
+    (step env st (.enter s [c])).errs = [] ∧
+    ∀ r, r ≠ c → (step env st (.enter s [c])).ctrs r = st.ctrs r := by
+  simp only [step, List.foldl_cons, List.foldl_nil, enterOne]
+  cases st.ctrs c with
+  | none => simp [St.put, he]; intro r hr; simp [hr]
+  | some k => simp only [St.put]; split <;> (simp [he]; intro r hr; simp [hr])
+
+/-- **one scope, unique / key, from any history**: entering a scope resets the counter, so whatever
+    was validated before, the block `enter s; collect n₁ … n_k; leave s` adds no error exactly when the
+    per-scope counter run on the selected rows adds none (which `key_scope_iff` / `unique_scope_iff`
+    equate with the XSD rule). -/
+theorem scope_block_iff (env : Env) (c s : Nat) (ns : List Nat) (st : St)
+    (hk : env.kind c ≠ .keyref) (he : st.errs = []) :
+    (runFrom env st (.enter s [c] :: (ns.map fun n => Ev.collect n [c]) ++ [.leave s [c]])).errs = [] ↔
+      (offerAll (env.kind c) (scopeRows env c s ns) []).2 = [] := by
+  unfold runFrom
+  rw [List.cons_append, List.foldl_cons, List.foldl_append, collects_fold]
+  obtain ⟨hc1, he1, _⟩ := enter_state env c s st he
+  generalize step env st (.enter s [c]) = st1 at hc1 he1
+  obtain ⟨b1, b2⟩ := collect_block env c s ns st1 [] hc1
+  generalize ns.foldl (fun st n => collectOne env n st c) st1 = fin at b1 b2
+  simp only [List.foldl_cons, List.foldl_nil, step, leaveOne, b1]
+  rw [if_neg hk]
+  simp only [St.put]
+  rw [b2]
+  simp [he1]
+
+/-! ### one scope of a keyref whose referenced constraint has no scope instance inside it -/
+
+theorem collectOne_frame (env : Env) (n c r : Nat) (st : St) (h : r ≠ c) :
+    (collectOne env n st c).ctrs r = st.ctrs r := by
   unfold collectOne
   cases st.ctrs c with
   | none => rfl
@@ -302,55 +334,85 @@ theorem collectOne_crash (env : Env) (n c : Nat) (st : St) :
     · generalize offer (env.kind c) k.table (env.fields c n) = o
       obtain ⟨tb, e⟩ := o
       cases e with
-      | none => simp [St.put]
-      | some e => cases e <;> simp [St.put, St.err]
+      | none => simp [St.put, h]
+      | some e => cases e <;> simp [St.put, St.err, h]
 
-theorem collects_fold (env : Env) (c : Nat) (ns : List Nat) (st : St) (h : st.crash = false) :
-    (ns.map fun n => Ev.collect n [c]).foldl (step env) st =
-      ns.foldl (fun st n => collectOne env n st c) st := by
+theorem collects_frame (env : Env) (c r : Nat) (ns : List Nat) (st : St) (h : r ≠ c) :
+    (ns.foldl (fun st n => collectOne env n st c) st).ctrs r = st.ctrs r := by
   induction ns generalizing st with
   | nil => rfl
-  | cons n ns ih =>
-    simp only [List.map_cons, List.foldl_cons]
-    have : step env st (.collect n [c]) = collectOne env n st c := by
-      simp [step, h]
-    rw [this]
-    exact ih _ ((collectOne_crash env n c st).trans h)
+  | cons n ns ih => rw [List.foldl_cons, ih, collectOne_frame env n c r st h]
 
-/-- **one scope, unique / key, from any history**: entering a scope resets the counter, so whatever
-    was validated before, the block `enter s; collect n₁ … n_k; leave s` adds no error exactly when the
-    per-scope counter run on the selected rows adds none (which `key_scope_iff` /
-    `unique_scope_iff_partial` equate with the XSD rule). -/
-theorem scope_block_iff (env : Env) (c s : Nat) (ns : List Nat) (st : St)
-    (hk : env.kind c ≠ .keyref) (hcr : st.crash = false) (he : st.errs = []) :
+theorem referTableIn_congr {a b : St} {r : Nat} (h : a.ctrs r = b.ctrs r) :
+    referTableIn a r = referTableIn b r := by
+  unfold referTableIn; rw [h]
+
+theorem referTableIn_ensureRefer (n r : Nat) (st : St) :
+    referTableIn (ensureRefer n st r) r = referTableIn st r := by
+  unfold ensureRefer referTableIn
+  cases h : st.ctrs r with
+  | none => simp [St.put]
+  | some k => simp [h]
+
+theorem ensureRefer_errs (n r : Nat) (st : St) : (ensureRefer n st r).errs = st.errs := by
+  unfold ensureRefer
+  cases st.ctrs r <;> rfl
+
+/-- **one scope, keyref, from any history, the referenced constraint `r` having no scope instance
+    inside the block**: the block adds no error exactly when the keyref counter run adds none and
+    every collected tuple is in the table that `r`'s counter held *before* the block — the empty
+    table when `r` has no counter at all (b32146f: no KeyError any more).  A table left behind by
+    a scope instance of `r` *outside* this scope is read here: that is finding C08-F4. -/
+theorem keyref_block_iff (env : Env) (c r s : Nat) (ns : List Nat) (st : St)
+    (hk : env.kind c = .keyref) (hr : env.refer c = some r) (hne : r ≠ c) (he : st.errs = []) :
     (runFrom env st (.enter s [c] :: (ns.map fun n => Ev.collect n [c]) ++ [.leave s [c]])).errs = [] ↔
-      (offerAll (env.kind c) (scopeRows env c s ns) []).2 = [] := by
+      ((offerAll .keyref (scopeRows env c s ns) []).2 = [] ∧
+       keyrefErrs c s (offerAll .keyref (scopeRows env c s ns) []).1 (referTableIn st r) = []) := by
   unfold runFrom
   rw [List.cons_append, List.foldl_cons, List.foldl_append, collects_fold]
-  · -- state after `enter`
-    have hent : ∃ st1, step env st (.enter s [c]) = st1 ∧ st1.ctrs c = some ⟨s, true, []⟩ ∧
-        st1.errs = [] ∧ st1.crash = false := by
-      refine ⟨_, rfl, ?_⟩
-      simp only [step, hcr, Bool.false_eq_true, if_false, List.foldl_cons, List.foldl_nil, enterOne]
-      cases st.ctrs c with
-      | none => simp [St.put, he, hcr]
-      | some k => simp only [St.put]; split <;> simp [he, hcr]
-    obtain ⟨st1, h1, hc1, he1, hcr1⟩ := hent
-    rw [h1]
-    obtain ⟨b1, b2, b3⟩ := collect_block env c s ns st1 [] hc1
-    generalize ns.foldl (fun st n => collectOne env n st c) st1 = fin at b1 b2 b3
-    have hfc : fin.crash = false := b3.trans hcr1
-    simp only [List.foldl_cons, List.foldl_nil, step, hfc, Bool.false_eq_true, if_false, leaveOne, b1]
-    rw [if_neg hk]
-    simp only [St.put]
-    rw [b2]
-    simp [he1]
-  · simp only [step, hcr, Bool.false_eq_true, if_false, List.foldl_cons, List.foldl_nil, enterOne]
-    cases st.ctrs c with
-    | none => simp [St.put, hcr]
-    | some k => simp only [St.put]; split <;> simp [hcr]
+  obtain ⟨hc1, he1, hf1⟩ := enter_state env c s st he
+  have hr1 := hf1 r hne
+  generalize step env st (.enter s [c]) = st1 at hc1 he1 hr1
+  obtain ⟨b1, b2⟩ := collect_block env c s ns st1 [] hc1
+  have b3 := collects_frame env c r ns st1 hne
+  generalize ns.foldl (fun st n => collectOne env n st c) st1 = fin at b1 b2 b3
+  rw [hk] at b1 b2
+  simp only [List.foldl_cons, List.foldl_nil, step, leaveOne, b1, hk, if_true, hr]
+  have htab : referTableIn (ensureRefer s (fin.put c ⟨s, false,
+        (offerAll .keyref (scopeRows env c s ns) []).1⟩) r) r = referTableIn st r := by
+    rw [referTableIn_ensureRefer]
+    apply referTableIn_congr
+    simp [St.put, hne, b3, hr1]
+  rw [htab, ensureRefer_errs]
+  simp only [St.put, List.append_eq_nil_iff, List.reverse_eq_nil_iff]
+  rw [b2]
+  simp [he1, and_comm]
 
-/-! ### where the pinned per-document machine deviates: witnesses (replayed on the real code) -/
+/-- **keyref, the referenced key never occurred** (the region of the former finding C08-F7, now a
+    verdict instead of a KeyError): the block adds no error exactly when the keyref rule holds
+    against the EMPTY table, i.e. no selected node has all its fields. -/
+theorem keyref_absent_refer_iff (env : Env) (c r s : Nat) (ns : List Nat) (st : St)
+    (hk : env.kind c = .keyref) (hr : env.refer c = some r) (hne : r ≠ c) (he : st.errs = [])
+    (hno : st.ctrs r = none) :
+    (runFrom env st (.enter s [c] :: (ns.map fun n => Ev.collect n [c]) ++ [.leave s [c]])).errs = [] ↔
+      KeyrefOk (scopeRows env c s ns) ([] : List (List Val)) := by
+  rw [keyref_block_iff env c r s ns st hk hr hne he]
+  have ht : referTableIn st r = [] := by simp [referTableIn, hno]
+  obtain ⟨h1, h2⟩ := keyref_gen (scopeRows env c s ns) []
+  rw [ht, h1, keyrefErrs_nil_iff]
+  unfold KeyrefOk Resolved
+  constructor
+  · intro ⟨hn, h⟩
+    refine ⟨hn, fun t ht' => ?_⟩
+    exact absurd (h (wrap t) ((h2 hn _).mpr (Or.inr ⟨t, ht', rfl⟩))) (by simp)
+  · intro ⟨hn, h⟩
+    refine ⟨hn, fun v hv => ?_⟩
+    rw [h2 hn] at hv
+    simp only [List.not_mem_nil, false_or] at hv
+    obtain ⟨t, ht', rfl⟩ := hv
+    exact absurd (h t ht') (by simp)
+
+/-! ### where the per-document machine still deviates: witnesses (replayed on the real code) -/
 
 def v1 : FRes Val := .val (.num 1 0)
 def v2 : FRes Val := .val (.num 2 0)
@@ -365,7 +427,7 @@ def nestedEvs : List Ev :=
   [.enter 1 [0], .collect 2 [0], .enter 3 [0], .leave 3 [0], .collect 4 [0], .leave 1 [0]]
 
 /- Full statement: for every well-nested event stream, `(run env evs).errs = []` iff every scope
-   instance satisfies its rule.  FALSE for the pinned algorithm when a scope of a constraint is nested
+   instance satisfies its rule.  FALSE for the current algorithm when a scope of a constraint is nested
    in another scope of the same constraint (finding C08-F3): the inner `enter` resets the shared
    counter and the inner `leave` disables it. -/
 theorem nested_counterexample :
@@ -391,11 +453,19 @@ theorem spread_counterexample :
     (run spreadEnv spreadEvs).errs = [.notfound 1 1 1] := by
   decide
 
-/-- finding C08-F7: the referenced key's element does not occur: `identities[self.refer]` raises
-    KeyError (no verdict) -/
-theorem crash_counterexample :
-    (run spreadEnv [.enter 1 [1], .leave 1 [1]]).crash = true := by
+/-- regression witnesses for b32146f (the former finding C08-F7, replayed on the real code by the
+    harness): the referenced key's element does not occur.  `<root/>` is valid, and
+    `<root><ref f1="1"/></root>` reports the dangling reference — neither raises -/
+theorem absent_refer_witness :
+    (run spreadEnv [.enter 1 [1], .leave 1 [1]]).errs = [] ∧
+    (run spreadEnv [.enter 1 [1], .collect 6 [1], .leave 1 [1]]).errs = [.notfound 1 1 1] ∧
+    ¬ KeyrefOk (scopeRows spreadEnv 1 1 [6]) ([] : List (List Val)) := by
   decide
+
+/-- the hypotheses of `keyref_block_iff` / `keyref_absent_refer_iff` are met by that witness -/
+example : spreadEnv.kind 1 = .keyref ∧ spreadEnv.refer 1 = some 0 ∧ (0 : Nat) ≠ 1 ∧
+    St.init.errs = [] ∧ St.init.ctrs 0 = none :=
+  ⟨by decide, by decide, by decide, rfl, rfl⟩
 
 /-! ### field values are compared in the value space of their declared types -/
 
